@@ -160,6 +160,58 @@ theorem contracts_agree_without_hup (k : Nat) (last : Ev) :
     run .signalsOnly (initial k) [last] = run .reselects (initial k) [last] := by
   cases last <;> simp [run, step, initial, stepListener, watchesQuit]
 
+/-! ### which signals a listener receives: the channel of capacity 1 -/
+
+/-- **sequential_delivery_is_the_event_machine.** If the goroutine gets to run between any two arrivals, a channel
+of capacity ≥ 1 loses nothing: the delivery-level machine does exactly what the event-level one does, for every
+history. (The hypothesis under which `shutdown_begins` speaks about the process.) -/
+theorem sequential_delivery_is_the_event_machine (c : ListenContract) (cap : Nat) (hcap : 0 < cap) (es : List Ev) :
+    ∀ l : LState, (sequential es).foldl (stepAct c cap) (l, []) = (runListener c l es, []) := by
+  induction es with
+  | nil => intro l; rfl
+  | cons e es ih =>
+    intro l
+    have hd : deliver cap [] e = [e] := by
+      unfold deliver
+      by_cases h : e = .exitCall
+      · simp [h]
+      · simp [h, hcap]
+    simp only [sequential, List.flatMap_cons, List.cons_append, List.nil_append, List.foldl_cons, stepAct, hd,
+      List.foldl_nil]
+    have ih' := ih (stepListener c e l)
+    simp only [sequential] at ih'
+    rw [ih']
+    simp [runListener]
+
+/-- **shutdown_begins_if_handled_in_turn_partial.** Full statement (false — `signal_right_after_sighup_is_lost`): for
+every schedule of arrivals and runs of the goroutine in which `n` SIGHUPs are followed by a terminating event, the
+handler is called. Forced hypothesis: the schedule is `sequential` — every signal is handled before the next one
+arrives. -/
+theorem shutdown_begins_if_handled_in_turn_partial (cap : Nat) (hcap : 0 < cap) (n : Nat) (last : Ev) (h : last ≠ .hup) :
+    runActs .reselects cap (sequential (history n last)) = (.ran (sigOf last), []) := by
+  simp only [runActs]
+  rw [sequential_delivery_is_the_event_machine .reselects cap hcap]
+  rw [listener_reacts n last h]
+
+/-- **Negation with witness (recorded finding).** Capacity 1, as in `exit.Listen`: a SIGTERM that arrives before the
+goroutine has handled the preceding SIGHUP is dropped — when the goroutine runs it sees the SIGHUP only, goes back to
+waiting, and the shutdown never begins. With capacity 2 the same schedule calls the handler. `exit.Exit` in the same
+position is not lost. Replayed by `corpus/c18.exit.jsonl` (class `sigterm-right-after-sighup`). -/
+theorem signal_right_after_sighup_is_lost :
+    runActs .reselects 1 [.arrives .hup, .arrives (.sig .term), .runs] = (.waiting true, []) ∧
+    runActs .reselects 2 [.arrives .hup, .arrives (.sig .term), .runs] = (.ran (some .term), []) ∧
+    runActs .reselects 1 [.arrives .hup, .arrives .exitCall, .runs] = (.ran none, []) := by decide
+
+theorem shutdown_begins_full_statement_fails :
+    ¬ ∀ (acts : List Act), acts = [.arrives .hup, .arrives (.sig .term), .runs] →
+        handlerRan (runActs .reselects 1 acts).1 = true := by
+  intro h
+  have := h _ rfl
+  revert this
+  decide
+
+example : runActs .reselects 1 (sequential (history 2 (.sig .int))) = (.ran (some .int), []) := by decide
+
 /-! ### non-vacuity -/
 example : run .reselects (initial 2) (history 3 (.sig .term)) =
     { listeners := [.ran (some .term), .ran (some .term)], quitClosed := false } := by decide
